@@ -447,6 +447,42 @@ func c17R2(p *Prog, r *Report) {
 		okSel["v4"] = false
 	}
 	r.Check(okSel["v4"] && okSel["v6"], rule, "dns.(*Resolver).sendQueriesTCP:resend-unanswered-only", p.posStr(tq.Body.Pos()), "with A answered only the AAAA query is re-sent and vice versa", "the TCP retry re-sends the already answered query (or drops the unanswered one)")
+	// … and the offset at which the caller lets it split the buffer is where the second
+	// length-prefixed message begins: the low bound of the slice the second length field is
+	// written into (not the start of the message behind that length field)
+	sq := p.Func("dns", "Resolver", "sendQueries")
+	sinfo := sq.Info()
+	var lenLows []linForm
+	for _, cs := range sq.AllCalls() {
+		if cs.Fn == nil || cs.Fn.Name() != "PutUint16" || len(cs.Call.Args) != 2 {
+			continue
+		}
+		dst := ast.Unparen(sq.Resolve(cs.Call.Args[0]))
+		if sl, ok := dst.(*ast.SliceExpr); ok {
+			if sl.Low == nil {
+				lenLows = append(lenLows, linForm{})
+			} else {
+				lenLows = append(lenLows, linOf(p, sq, sl.Low))
+			}
+		}
+	}
+	okSplit, nTCP := false, 0
+	for _, cs := range sq.CallsTo(isFn(mp("dns"), "Resolver", "sendQueriesTCP")) {
+		nTCP++
+		// the integer argument
+		for _, a := range cs.Call.Args {
+			if b, isB := sinfo.TypeOf(a).Underlying().(*types.Basic); !isB || b.Kind() != types.Int {
+				continue
+			}
+			la := linOf(p, sq, a)
+			for _, ll := range lenLows {
+				if len(ll) > 0 && la.add(ll, -1).isZero() {
+					okSplit = true
+				}
+			}
+		}
+	}
+	r.Check(okSplit && nTCP == 1 && len(lenLows) == 2, rule, "dns.(*Resolver).sendQueries:tcp-split-at-second-length-field", p.posStr(sq.Body.Pos()), "the split offset handed to the TCP sender is the start of the second length field", "the offset at which the TCP sender splits the two queries is not the start of the second length-prefixed message: a retry of one query is sent without (or with a foreign) length prefix and the missing family is never obtained")
 	r.Floor(rule, 6)
 }
 
